@@ -24,3 +24,248 @@ package cache
 //@   loop 0: invariant [range] 0 <= i && i <= zoneSize && len(list) == zoneSize
 //@   loop 0: invariant [filled] forall k int :: 0 <= k && k < i ==> list[k] != nil && allocated(list[k]) && list[k].cache != nil && list[k].cache.MaxEntries == lruSize && list[k].mu != nil
 //@   loop 0: invariant [distinct] forall k, j int :: 0 <= k && k < j && j < i ==> list[k] != list[j]
+
+// ---- cache entry state machine (http_cache.go) -------------------------------------------
+
+// $clock: last reading of the Unix clock by this thread (monotone by assumption on nowUnix).
+// $tok[hc]: 1 iff this thread owns the right (and duty) to complete the current fetch of hc.
+// $regs: number of waiter registrations (appends to chanList) performed by this thread.
+//@ ghost local $clock int
+//@ ghost local $tok map[*httpCache]int
+//@ ghost local $regs int
+
+//@ guarded_by httpCache.mu: status, chanList, response, createdAt, expiredAt
+//@ immutable httpCache: key, store, mu
+
+//@ pred invRange(hc *httpCache) := StatusUnknown <= hc.status && hc.status <= StatusHit
+//@ pred invTok(hc *httpCache) := 0 <= $tok[hc] && $tok[hc] <= 1 && ($tok[hc] == 1 ==> hc.status == StatusFetching)
+//@ pred invWaiters(hc *httpCache) := hc.status != StatusFetching ==> len(hc.chanList) == 0
+//@ pred invExpiry(hc *httpCache) := ((hc.status == StatusFetching || hc.status == StatusUnknown) ==> hc.expiredAt == 0)
+//@      && ((hc.status == StatusHit || hc.status == StatusHitForPass) ==> hc.expiredAt != 0)
+//@ pred invHit(hc *httpCache) := hc.status == StatusHit ==> hc.response != nil
+//@ pred invDistinct(hc *httpCache) := (forall i int :: 0 <= i && i < len(hc.chanList) ==> hc.chanList[i] != nil && allocated(hc.chanList[i]))
+//@      && (forall i, j int :: 0 <= i && i < j && j < len(hc.chanList) ==> hc.chanList[i] != hc.chanList[j])
+//@ pred inv(hc *httpCache) := invRange(hc) && invTok(hc) && invWaiters(hc) && invExpiry(hc) && invHit(hc) && invDistinct(hc)
+
+//@ lockinv httpCache.mu(hc) [range]: invRange(hc)
+//@ lockinv httpCache.mu(hc) [tok]: invTok(hc)
+//@ lockinv httpCache.mu(hc) [waiters]: invWaiters(hc)
+//@ lockinv httpCache.mu(hc) [expiry]: invExpiry(hc)
+//@ lockinv httpCache.mu(hc) [hit]: invHit(hc)
+//@ lockinv httpCache.mu(hc) [distinct]: invDistinct(hc)
+
+// Every write of the status field moves the fetch token: it is created by the transition
+// into Fetching and must be owned by whoever leaves Fetching.
+//@ on write httpCache.status(x, o, n):
+//@   assert [own] (o == StatusFetching && n != StatusFetching) ==> $tok[x] >= 1
+//@   update $tok[x] := $tok[x] + ((n == StatusFetching && o != StatusFetching) ? 1 : 0) - ((o == StatusFetching && n != StatusFetching) ? 1 : 0)
+// Every write that grows the waiter list by one is a registration.
+//@ on write httpCache.chanList(x, o, n):
+//@   update $regs := $regs + ((len(n) == len(o) + 1) ? 1 : 0)
+//@   update $owed := $owed + ((len(n) == 0) ? len(o) : 0)
+// $owed: blocking sends this thread owes to waiters whose registrations it removed from an
+// entry's list; $expbase[hc]: the clock reading in force when hc.expiredAt was last written.
+//@ ghost local $owed int
+//@ ghost local $expbase map[*httpCache]int
+//@ on write httpCache.expiredAt(x, o, n):
+//@   update $expbase[x] := $clock
+
+//@ func nowUnix() (t int64)
+//@   trusted
+//@   nopanic
+//@   modifies $clock
+//@   ensures [mono] t >= old($clock) && $clock == t && t >= 0
+
+//@ func NewHTTPCache() (hc *httpCache)
+//@   nopanic
+//@   ensures [fresh] fresh(hc) && hc.mu != nil && fresh(hc.mu)
+//@   ensures [zero] hc.status == StatusUnknown && hc.expiredAt == 0 && hc.createdAt == 0 && hc.response == nil && len(hc.chanList) == 0
+//@   ensures [nostore] hc.store == nil && len(hc.key) == 0
+
+//@ func NewHTTPStoreCache(key []byte, store store.Store) (hc *httpCache)
+//@   nopanic
+//@   ensures [fresh] fresh(hc) && hc.mu != nil && fresh(hc.mu)
+//@   ensures [zero] hc.status == StatusUnknown && hc.expiredAt == 0 && hc.createdAt == 0 && hc.response == nil && len(hc.chanList) == 0
+//@   ensures [wired] hc.store == store && hc.key == key
+
+//@ func (hc *httpCache) get() (status Status, done chan struct{}, data *HTTPResponse)
+//@   requires [recv] hc != nil && hc.mu != nil
+//@   requires [locked] held(hc.mu)
+//@   requires [inv] inv(hc)
+//@   modifies hc.status, hc.chanList, hc.response, hc.createdAt, hc.expiredAt, $tok[hc], $clock, $regs, $owed, $expbase[hc]
+//@   nopanic
+//@   ensures [owed]    $owed == old($owed)
+//@   ensures [inv-range]    invRange(hc)
+//@   ensures [inv-tok]      invTok(hc)
+//@   ensures [inv-waiters]  invWaiters(hc)
+//@   ensures [inv-expiry]   invExpiry(hc)
+//@   ensures [inv-hit]      invHit(hc)
+//@   ensures [inv-distinct] invDistinct(hc)
+//@   ensures [domain]  status == hc.status && (status == StatusFetching || status == StatusHitForPass || status == StatusHit)
+//@   ensures [wait]    done != nil ==> status == StatusFetching && fresh(done) && $tok[hc] == old($tok[hc]) && $regs == old($regs) + 1
+//@                       && len(hc.chanList) >= 1 && hc.chanList[len(hc.chanList) - 1] == done
+//@   ensures [grant]   status == StatusFetching && done == nil ==> old($tok[hc]) == 0 && $tok[hc] == 1 && len(hc.chanList) == 0
+//@   ensures [nogrant] status != StatusFetching ==> $tok[hc] == old($tok[hc]) && done == nil
+//@   ensures [noreg]   done == nil ==> $regs == old($regs)
+//@   ensures [hit]     status == StatusHit ==> data != nil && data == hc.response && $clock <= hc.expiredAt
+//@   ensures [nohit]   status != StatusHit ==> data == nil
+//@   ensures [pass]    status == StatusHitForPass ==> $clock <= hc.expiredAt
+//@   ensures [keep]    (old(hc.status) == StatusHit || old(hc.status) == StatusHitForPass) && !(old(hc.expiredAt) < $clock)
+//@                       ==> status == old(hc.status) && hc.response == old(hc.response)
+//@                        && hc.createdAt == old(hc.createdAt) && hc.expiredAt == old(hc.expiredAt)
+//@   ensures [expire]  (old(hc.status) == StatusHit || old(hc.status) == StatusHitForPass) && old(hc.expiredAt) < $clock
+//@                       ==> status == StatusFetching && done == nil
+//@   ensures [queue]   old(hc.status) == StatusFetching ==> done != nil
+//@   ensures [clock]   $clock >= old($clock)
+
+//@ func (hc *httpCache) Get() (status Status, response *HTTPResponse)
+//@   requires [recv] hc != nil && hc.mu != nil
+//@   requires [unlocked] !anyheld(hc.mu)
+//@   requires [tok] $tok[hc] == 0
+//@   modifies hc.status, hc.chanList, hc.response, hc.createdAt, hc.expiredAt, $tok[hc], $clock, $regs, $recv, $recv_total, $owed, $expbase[hc], cells(chan struct{})
+//@   loop 0: modifies hc.status, hc.chanList, hc.response, hc.createdAt, hc.expiredAt, $tok[hc], $clock, $regs, $recv, $recv_total, $owed, $expbase[hc], cells(chan struct{})
+//@   loop 0: invariant [locks] $held == old($held)
+//@   loop 0: invariant [dom]   status == StatusFetching || status == StatusHitForPass || status == StatusHit
+//@   loop 0: invariant [tok]   (done == nil && status == StatusFetching) ==> $tok[hc] == 1
+//@   loop 0: invariant [tok0]  (done != nil || status != StatusFetching) ==> $tok[hc] == 0
+//@   loop 0: invariant [hit]   done == nil ==> ((status == StatusHit ==> response != nil) && (status != StatusHit ==> response == nil))
+//@   loop 0: invariant [clock] $clock >= old($clock)
+//@   loop 0: invariant [wait]  $regs - old($regs) == $recv_total - old($recv_total) + ((done != nil) ? 1 : 0)
+//@   ensures [recv]    $regs - old($regs) == $recv_total - old($recv_total)
+//@   ensures [domain]  status == StatusFetching || status == StatusHitForPass || status == StatusHit
+//@   ensures [token]   status == StatusFetching ==> $tok[hc] == 1
+//@   ensures [notoken] status != StatusFetching ==> $tok[hc] == 0
+//@   ensures [hit]     status == StatusHit ==> response != nil
+//@   ensures [nohit]   status != StatusHit ==> response == nil
+//@   ensures [clock]   $clock >= old($clock)
+
+//@ func (hc *httpCache) initFromStore() (err error)
+//@   requires [recv] hc != nil && hc.mu != nil
+//@   requires [locked] held(hc.mu)
+//@   requires [inv] inv(hc) && hc.status == StatusUnknown && $tok[hc] == 0
+//@   modifies hc.status, hc.response, hc.createdAt, hc.expiredAt, $tok[hc], $expbase[hc]
+//@   nopanic
+//@   ensures [inv-range]    invRange(hc)
+//@   ensures [inv-tok]      invTok(hc)
+//@   ensures [inv-waiters]  invWaiters(hc)
+//@   ensures [inv-expiry]   invExpiry(hc)
+//@   ensures [inv-hit]      invHit(hc)
+//@   ensures [inv-distinct] invDistinct(hc)
+//@   ensures [state] hc.status == StatusUnknown || hc.status == StatusHit || hc.status == StatusHitForPass
+//@   ensures [tok]   $tok[hc] == 0
+//@   ensures [miss]  err != nil ==> hc.status == StatusUnknown
+//@   ensures [nostore] (hc.store == nil || len(hc.key) == 0) ==> hc.status == StatusUnknown && err == nil
+
+//@ func (hc *httpCache) FromBytes(data []byte) (err error)
+//@   requires [recv] hc != nil && hc.mu != nil
+//@   requires [locked] held(hc.mu)
+//@   requires [tok] hc.status != StatusFetching || $tok[hc] >= 1
+//@   modifies hc.status, hc.response, hc.createdAt, hc.expiredAt, $tok[hc], $expbase[hc]
+//@   nopanic
+//@   ensures [tok] $tok[hc] == old($tok[hc]) + ((hc.status == StatusFetching && old(hc.status) != StatusFetching) ? 1 : 0)
+//@                   - ((old(hc.status) == StatusFetching && hc.status != StatusFetching) ? 1 : 0)
+//@   ensures [resp] err == nil ==> hc.response != nil
+
+//@ func (resp *HTTPResponse) FromBytes(data []byte) (err error)
+//@   requires [recv] resp != nil
+//@   modifies resp.CompressSrv, resp.CompressMinLength, resp.CompressContentTypeFilter, resp.Header, resp.StatusCode, resp.GzipBody, resp.BrBody, resp.RawBody
+//@   nopanic
+
+//@ func readUint32ToInt(buffer *bytes.Buffer) (v int, err error)
+//@   requires [buf] buffer != nil
+//@   modifies buffer.rest
+//@   nopanic
+//@   ensures [range] 0 <= v && v <= 4294967295
+//@   ensures [err] err != nil ==> v == 0
+
+//@ func readUint64ToInt64(buffer *bytes.Buffer) (v int64, err error)
+//@   requires [buf] buffer != nil
+//@   modifies buffer.rest
+//@   nopanic
+//@   ensures [err] err != nil ==> v == 0
+
+//@ func (hc *httpCache) Bytes() (data []byte, err error)
+//@   requires [recv] hc != nil && hc.mu != nil
+//@   requires [locked] anyheld(hc.mu)
+//@   nopanic
+
+//@ func (resp *HTTPResponse) Bytes() (data []byte, err error)
+//@   requires [recv] resp != nil
+//@   nopanic
+
+//@ func (hc *httpCache) saveToStore() (err error)
+//@   requires [recv] hc != nil && hc.mu != nil
+//@   requires [locked] anyheld(hc.mu)
+//@   requires [waiters-first] $owed == $sent_total
+//@   modifies $clock
+//@   nopanic
+//@   ensures [clock] $clock >= old($clock)
+
+//@ func (hc *httpCache) HitForPass(ttl int)
+//@   requires [recv] hc != nil && hc.mu != nil
+//@   requires [unlocked] !anyheld(hc.mu)
+//@   requires [tok] $tok[hc] == 1
+//@   requires [nodebt] $owed == $sent_total
+//@   modifies hc.status, hc.chanList, hc.response, hc.createdAt, hc.expiredAt, $tok[hc], $clock, $regs, $owed, $expbase[hc], $sent, $sent_total, cells(chan struct{})
+//@   nopanic
+//@   ensures  [consumed] $tok[hc] == 0
+//@   ensures  [nodebt]   $owed == $sent_total
+//@   ensures  [clock]    $clock >= old($clock)
+//@   atunlock [state]    hc.status == StatusHitForPass && len(hc.chanList) == 0
+//@   atunlock [ttl]      hc.expiredAt == wrap64($expbase[hc] + ((ttl <= 0) ? 300 : ttl))
+//@                         && at(lock0, $clock) <= $expbase[hc] && $expbase[hc] <= $clock
+//@   atunlock [release]  forall i int :: 0 <= i && i < at(lock0, len(hc.chanList)) ==>
+//@                         $sent[at(lock0, hc.chanList[i])] == at(lock0, $sent)[at(lock0, hc.chanList[i])] + 1
+//@   atunlock [keep]     hc.response == at(lock0, hc.response) && hc.createdAt == at(lock0, hc.createdAt)
+//@   loop 0: modifies $sent, $sent_total
+//@   loop 0: invariant [idx]  -1 <= $idx && $idx < len(list)
+//@   loop 0: invariant [sent] forall k int :: 0 <= k && k <= $idx ==> $sent[list[k]] == at(lock0, $sent)[list[k]] + 1
+//@   loop 0: invariant [rest] forall k int :: $idx < k && k < len(list) ==> $sent[list[k]] == at(lock0, $sent)[list[k]]
+//@   loop 0: invariant [count] $sent_total == at(lock0, $sent_total) + $idx + 1
+
+//@ func (hc *httpCache) Cacheable(resp *HTTPResponse, ttl int)
+//@   requires [recv] hc != nil && hc.mu != nil
+//@   requires [unlocked] !anyheld(hc.mu)
+//@   requires [tok] $tok[hc] == 1
+//@   requires [nodebt] $owed == $sent_total
+//@   requires [resp] resp != nil
+//@   requires [ttl] ttl > 0
+//@   modifies hc.status, hc.chanList, hc.response, hc.createdAt, hc.expiredAt, $tok[hc], $clock, $regs, $owed, $expbase[hc], $sent, $sent_total, cells(chan struct{}), resp.CompressSrv, resp.GzipBody, resp.BrBody, resp.RawBody
+//@   nopanic
+//@   ensures  [consumed] $tok[hc] == 0
+//@   ensures  [nodebt]   $owed == $sent_total
+//@   ensures  [clock]    $clock >= old($clock)
+//@   ensures  [best]     resp.CompressSrv == compress.BestCompression
+//@   atunlock [state]    hc.status == StatusHit && hc.response == resp && len(hc.chanList) == 0
+//@   atunlock [times]    hc.expiredAt == wrap64(hc.createdAt + ttl) && at(lock0, $clock) <= hc.createdAt && hc.createdAt <= $clock
+//@   atunlock [release]  forall i int :: 0 <= i && i < at(lock0, len(hc.chanList)) ==>
+//@                         $sent[at(lock0, hc.chanList[i])] == at(lock0, $sent)[at(lock0, hc.chanList[i])] + 1
+//@   loop 0: modifies $sent, $sent_total
+//@   loop 0: invariant [idx]  -1 <= $idx && $idx < len(list)
+//@   loop 0: invariant [sent] forall k int :: 0 <= k && k <= $idx ==> $sent[list[k]] == at(lock0, $sent)[list[k]] + 1
+//@   loop 0: invariant [rest] forall k int :: $idx < k && k < len(list) ==> $sent[list[k]] == at(lock0, $sent)[list[k]]
+//@   loop 0: invariant [count] $sent_total == at(lock0, $sent_total) + $idx + 1
+
+//@ func (resp *HTTPResponse) Compress() (err error)
+//@   requires [recv] resp != nil
+//@   modifies resp.GzipBody, resp.BrBody, resp.RawBody
+//@   nopanic
+
+//@ func (hc *httpCache) Age() (age int)
+//@   requires [recv] hc != nil && hc.mu != nil
+//@   requires [unlocked] !anyheld(hc.mu)
+//@   modifies $clock, hc.status, hc.chanList, hc.response, hc.createdAt, hc.expiredAt, cells(chan struct{})   // taking the lock makes other goroutines' writes visible
+//@   nopanic
+//@   ensures [clock] $clock >= old($clock)
+
+//@ func (hc *httpCache) GetStatus() (s Status)
+//@   requires [recv] hc != nil && hc.mu != nil
+//@   requires [unlocked] !anyheld(hc.mu)
+//@   modifies hc.status, hc.chanList, hc.response, hc.createdAt, hc.expiredAt, cells(chan struct{})
+//@   nopanic
+
+//@ func (hc *httpCache) IsExpired() (b bool)
+//@   requires [recv] hc != nil && hc.mu != nil
+//@   requires [unlocked] !anyheld(hc.mu)
+//@   modifies $clock, hc.status, hc.chanList, hc.response, hc.createdAt, hc.expiredAt, cells(chan struct{})
+//@   nopanic
